@@ -108,10 +108,11 @@ func (r *MMapReader) SeekNext(offset uint64) (uint64, []byte, error) {
 
 			// we found the marker starting at i, we try to read it
 			trialOffset := uint64(next) + uint64(i)
-			record, err := r.ReadNextAt(trialOffset)
+			record, headerParsed, err := r.readNextAt(trialOffset)
 			if err != nil {
-				if errors.Is(err, HeaderChecksumMismatchErr) || errors.Is(err, MagicNumberMismatchErr) || errors.Is(err, io.EOF) {
-					// try to seek again, the record couldn't be read fully
+				if !headerParsed || errors.Is(err, io.EOF) {
+					// what follows these marker bytes is no record header (they are part of a payload), or the record
+					// couldn't be read fully: try to seek again
 					i = ix
 					continue
 				}
@@ -133,16 +134,26 @@ func (r *MMapReader) SeekNext(offset uint64) (uint64, []byte, error) {
 }
 
 func (r *MMapReader) ReadNextAt(offset uint64) ([]byte, error) {
+	record, _, err := r.readNextAt(offset)
+	return record, err
+}
+
+// readNextAt is ReadNextAt, it additionally tells whether a record header could be parsed at the offset at all. SeekNext probes
+// candidate positions with it: when no header can be parsed there, the marker bytes it found belong to a payload.
+func (r *MMapReader) readNextAt(offset uint64) (record []byte, headerParsed bool, err error) {
 	if !r.open || r.closed {
-		return nil, fmt.Errorf("reader at '%s' was either not opened yet or is closed already", r.path)
+		return nil, true, fmt.Errorf("reader at '%s' was either not opened yet or is closed already", r.path)
 	}
 
 	if r.header.fileVersion == Version1 {
-		return readNextAtV1(r, offset)
+		record, err = readNextAtV1(r, offset)
+		return record, !errors.Is(err, HeaderChecksumMismatchErr) && !errors.Is(err, MagicNumberMismatchErr), err
 	} else if r.header.fileVersion == Version2 {
-		return readNextAtV2(r, offset)
+		record, err = readNextAtV2(r, offset)
+		return record, !errors.Is(err, HeaderChecksumMismatchErr) && !errors.Is(err, MagicNumberMismatchErr), err
 	} else if r.header.fileVersion == Version3 {
-		return readNextAtV3(r, offset)
+		record, err = readNextAtV3(r, offset)
+		return record, !errors.Is(err, HeaderChecksumMismatchErr) && !errors.Is(err, MagicNumberMismatchErr), err
 	} else {
 		headerBufPooled := r.bufferPool.Get(RecordHeaderV4MaxSizeBytes)
 		defer r.bufferPool.Put(headerBufPooled)
@@ -156,10 +167,10 @@ func (r *MMapReader) ReadNextAt(offset uint64) ([]byte, error) {
 				// which will return EOF when you have read less than the buffers actual size due to the EOF.
 				// thankfully it's the same across the platforms they implement mmap for (unix mmap and windows umap file views).
 				if numRead == 0 {
-					return nil, io.EOF
+					return nil, true, io.EOF
 				}
 			} else {
-				return nil, fmt.Errorf("ReadNextAt failed reading at offset %d in mmap reader for '%s': %w", offset, r.path, err)
+				return nil, true, fmt.Errorf("ReadNextAt failed reading at offset %d in mmap reader for '%s': %w", offset, r.path, err)
 			}
 		}
 
@@ -167,11 +178,11 @@ func (r *MMapReader) ReadNextAt(offset uint64) ([]byte, error) {
 		headerByteReader := newChecksumByteReader(bytes.NewReader(headerBufPooled[:numRead]), headerBufPooledCrc)
 		payloadSizeUncompressed, payloadSizeCompressed, recordNil, err := readRecordHeaderV4(headerByteReader)
 		if err != nil {
-			return nil, fmt.Errorf("failed reading record header at offset %d in mmap reader for '%s': %w", offset, r.path, err)
+			return nil, false, fmt.Errorf("failed reading record header at offset %d in mmap reader for '%s': %w", offset, r.path, err)
 		}
 
 		if recordNil {
-			return nil, nil
+			return nil, true, nil
 		}
 
 		expectedBytesRead, pooledRecordBuf := allocateRecordBufferPooled(r.bufferPool, r.header, payloadSizeUncompressed, payloadSizeCompressed)
@@ -179,11 +190,11 @@ func (r *MMapReader) ReadNextAt(offset uint64) ([]byte, error) {
 
 		numRead, err = r.mmapReader.ReadAt(pooledRecordBuf, int64(offset)+int64(headerByteReader.Count()))
 		if err != nil {
-			return nil, fmt.Errorf("failed reading record at offset %d in mmap reader for '%s': %w", offset, r.path, err)
+			return nil, true, fmt.Errorf("failed reading record at offset %d in mmap reader for '%s': %w", offset, r.path, err)
 		}
 
 		if uint64(numRead) != expectedBytesRead {
-			return nil, fmt.Errorf("not enough bytes in the record found in mmap reader '%s', expected %d but were %d", r.path, expectedBytesRead, numRead)
+			return nil, true, fmt.Errorf("not enough bytes in the record found in mmap reader '%s', expected %d but were %d", r.path, expectedBytesRead, numRead)
 		}
 
 		var returnSlice []byte
@@ -193,7 +204,7 @@ func (r *MMapReader) ReadNextAt(offset uint64) ([]byte, error) {
 
 			decompressedRecord, err := r.header.compressor.DecompressWithBuf(pooledRecordBuf, pooledDecompressionBuffer)
 			if err != nil {
-				return nil, fmt.Errorf("failed decompressing record at offset %d in mmap reader for '%s': %w", offset, r.path, err)
+				return nil, true, fmt.Errorf("failed decompressing record at offset %d in mmap reader for '%s': %w", offset, r.path, err)
 			}
 			// we do a defensive copy here not to leak the pooled slice
 			returnSlice = make([]byte, len(decompressedRecord))
@@ -203,7 +214,7 @@ func (r *MMapReader) ReadNextAt(offset uint64) ([]byte, error) {
 			returnSlice = make([]byte, len(pooledRecordBuf))
 			copy(returnSlice, pooledRecordBuf)
 		}
-		return returnSlice, nil
+		return returnSlice, true, nil
 	}
 }
 
